@@ -1341,6 +1341,54 @@ bool dispatch_api(State& st, const std::string& op, const json& a, json& ret)
         ret = made;
         return true;
     }
+    if (op == "touch_track_files")
+    {
+        // The audio files the tracks name really exist next to the library (as on a USB stick prepared for a player): a small
+        // regular file is written at <dir>/<relative path> for every track whose path stays inside <dir>.  With "clear_sizes"
+        // the stored file size of every other track is removed by SQL (exporters do not always know it).
+        namespace fs = std::filesystem;
+        fs::path base = fs::path(a.at("dir").get<std::string>()).lexically_normal();
+        std::string bs = base.string();
+        if (!bs.empty() && bs.back() == '/') bs.pop_back();
+        int made = 0, skipped = 0;
+        for (auto& t : st.D().tracks())
+        {
+            std::string rp = t.relative_path();
+            fs::path p = (fs::path(bs) / rp).lexically_normal();
+            std::string ps = p.string();
+            if (rp.empty() || rp.find('\0') != std::string::npos || rp[0] == '/' || ps.rfind(bs + "/", 0) != 0 || ps.size() > 900)
+            {
+                ++skipped;
+                continue;
+            }
+            std::error_code ec;
+            fs::create_directories(p.parent_path(), ec);
+            if (fs::exists(p, ec) && !fs::is_regular_file(p, ec))
+            {
+                ++skipped;
+                continue;
+            }
+            std::ofstream f(ps, std::ios::binary);
+            if (!f)
+            {
+                ++skipped;
+                continue;
+            }
+            std::string body(1000 + (size_t)(t.id() % 977), 'a');
+            f.write(body.data(), (std::streamsize)body.size());
+            ++made;
+        }
+        if (a.value("clear_sizes", false))
+        {
+            sqlite3* conn = lib_conn();
+            auto info = raw_query(conn, st.is_v2 ? "PRAGMA table_info(Track)" : "PRAGMA music.table_info(Track)");
+            for (auto& r : info["rows"])
+                if (js(r[1].at("t")) == "fileBytes") raw_query(conn, "UPDATE Track SET fileBytes = NULL WHERE id % 2 = 0");
+        }
+        ret["made"] = made;
+        ret["skipped"] = skipped;
+        return true;
+    }
     if (op == "foreign_flags")
     {
         // Track columns that only Engine DJ (or the low-level 2.x table API) writes - locks, play state, import and streaming
